@@ -284,17 +284,22 @@ V1_TB = ["hand-written Lean models LC/Model/V1Tok (Tokenize, TargetRange), LC/Mo
          "the real findMatches; the remaining v1 models (filter chains, archive pairing, CLI glue) are decision logic checked "
          "by the property oracles on the real API"]
 
-P("C13", ["LC.Props.C13", "LC.Props.C17"],
+P("C13", ["LC.Props.C13", "LC.Props.C17", "LC.Props.C13Uniq"],
   [rootrun("stringclassifier", "stringclassifier", "overlay/stringclassifier/zz_verif_test.go", "TestVerifC13"),
    rootrun("stringclassifier/searchset", "searchset", "overlay/searchset/zz_verif_test.go", "TestVerifC17")],
   "value sets (1-60 tokens; small/large vocabulary; regex metacharacters, Unicode, invalid UTF-8), none inside another, with "
   "and without a lower-casing normaliser, thresholds 0.3/0.5/0.8/0.9/1.0; AddValue must not panic; NearestMatch of each value; a "
-  "verbatim copy planted in filler (start, middle, very end) must be reported with confidence 1.0 and exact Offset/Extent; all "
+  "verbatim copy planted in filler (start, middle, very end; values with stray white space at their ends included), copies of ALL "
+  "values of a set next to each other (shortest first / shuffled), and the value inside a longer word; every token-aligned copy "
+  "must be reported with confidence 1.0 and exact Offset/Extent; all "
   "confidences in (0,1], all ranges inside the normalised unknown. distinct = (value set, unknown); non-trivial = all",
   "findAll_sound/findAll_first (the literal search returns exactly the occurrences), exact_token_range (the repaired loop "
   "returns first/last token, single-token values included), nearest_exact; with C17's targetRange_ok the reported byte range "
   "is exactly the copy. Stage v1exact runs the real findMatches (exact path) on every planted case and compares its "
-  "Offset/Extent list with the model's findAllIndex -> exactRange -> targetRange.",
+  "Offset/Extent list with the model's findAllIndex -> trimOcc -> exactRange -> targetRange -> exactBytes (exact_reports_occurrence: "
+  "a value with white space at its ends is reported as the occurrence itself). uniquify_keeps / uniquify_starts_apart / "
+  "uniquify_sublist: the overlap filter keeps every match that begins inside no better-ranked range (half-open, uniquify_adjacent); "
+  "stage v1uniq compares the real Matches.uniquify with the model on random rank-ordered lists.",
   ["DiffSpec.equalInputs for confidence 1.0", "token-aligned copies (the property's reading, DESIGN §6 C13)"], trusted=V1_TB, regen=["unicode"])
 
 P("C14", ["LC.Props.C14"],
